@@ -16,12 +16,17 @@ class Facts:
         from . import normalize
         import os
         base = normalize.load_baseline() if not os.environ.get("SNOWLINT_NO_NORMALIZE") else None
+        if not os.environ.get("SNOWLINT_NO_NORMALIZE"):
+            normalize.rewrite_is_ok(d)
+            normalize.rewrite_split_at(d)
         if base is not None and cfg_id in base:
             ren = normalize.detect_renames(normalize.index_of(d), base[cfg_id])
             if ren:
                 d = json.loads(normalize.apply_renames_text(txt, ren))
                 self.normalized += [("rename", n, k) for n, k in sorted(ren.items())]
             self.normalized += [("inline", r, p) for (p, r) in normalize.normalize(d, base[cfg_id])]
+        if not os.environ.get("SNOWLINT_NO_NORMALIZE"):
+            self.threaded = normalize.thread_all(d)
         self.cfg_id = cfg_id
         self.raw = d
         self.crate = d["crate"]
